@@ -586,19 +586,21 @@ def apply_prog(prog, fidn, param, enc, data):
 # the check
 # ------------------------------------------------------------------------------------------------
 
-def run_all(exe, lines):
-    """Run op lines in parallel chunks; returns (outputs or None, (failing line, stderr) or None)."""
+def run_all(exe, lines, timeout=300):
+    """Run op lines in parallel chunks; returns (outputs or None, (failing line, stderr) or None).
+    A chunk that aborts or does not finish within `timeout` seconds is re-run line by line (20 s each) to find the op."""
     if not lines:
         return [], None
     parts = vlib.chunks(lines, vlib.NCPU * 2)
-    res = vlib.par_map(lambda ls: vlib.run_lines([exe], ls), parts)
+    res = vlib.par_map(lambda ls: vlib.run_lines([exe], ls, timeout=timeout), parts)
     outs = []
     for (rc, out, err), ls in zip(res, parts):
         if rc != 0 or len(out) != len(ls):
-            for ln in ls:
-                rc1, o1, e1 = vlib.run_lines([exe], [ln])
+            start = max(0, len(out) - 1) if rc == 124 else 0      # after a timeout the culprit is the first unanswered op
+            for ln in ls[start:] + ls[:start]:
+                rc1, o1, e1 = vlib.run_lines([exe], [ln], timeout=20)
                 if rc1 != 0 or len(o1) != 1:
-                    return None, (ln, e1)
+                    return None, (ln, e1 if rc1 != 124 else "[no answer within 20 s: the implementation does not terminate on this input]")
             return None, (ls[0], "chunk failed but no single line does: " + err)
         outs += out
     return outs, None
@@ -625,6 +627,18 @@ def changed(line, res):
     return True
 
 
+def gen_stage():
+    """Stage G: compile and run harness/gen_c15.c against the tree (linked with the #include-ing harness files), write Gen/C15.lean."""
+    okg, log, gexe = vlib.harness_build("c15gen", ["c15_codes.c", "c15_delta.c", "gen_c15.c"], tu=TU)
+    if not okg:
+        return False, "probe does not compile:\n" + log
+    rc, out = vlib.sh([gexe], timeout=120, env={"ASAN_OPTIONS": "detect_leaks=0"})
+    if rc != 0 or "end XzVerif.Gen.C15" not in out:
+        return False, "probe failed (rc %d):\n%s" % (rc, out[-3000:])
+    vlib.write_if_changed(vlib.module_path("XzVerif.Gen.C15"), out)
+    return True, ""
+
+
 def run(ctx):
     ctx.cov["rule"] = ("op lines from the seeded PRNG: per filter, random / edge-byte / instruction-dense synthetic buffers (every opcode class, near "
                        "misses, extreme immediates, unaligned prefixes), start offsets incl. 0, small, near 2^32 (wrapping inside the buffer), 2^31, "
@@ -638,13 +652,17 @@ def run(ctx):
         "the C compiler; the harness feeds the same bytes to the C functions and to the model driver; the pass-through next coder of the harness",
         "x86: single *_code calls are started with prev_mask = 0 (any prev_pos); other prev_mask values are reached through carried state only",
     ]
-    # P
-    p_ok = ctx.lean_stage(["XzVerif.Props.C15"], exes=["xzm_c15"], bv_decide_ok=("XzVerif.Lemmas.BitWords",))
-    # B
+    # B (library first: the Gen probe runs the real code)
     okb, log, _ = vlib.c_build("asan", targets=["liblzma"])
     if not okb:
         ctx.obligation_broken("stage B: /repo does not build", log)
         return "proof"
+    # G: regenerate lean/XzVerif/Gen/C15.lean by running the tree's code (filter parameters, IA-64 slot masks, x86 mask tables, word grids)
+    g_ok, glog = gen_stage()
+    if not g_ok:
+        ctx.obligation_broken("stage G: Gen/C15.lean cannot be regenerated (harness/gen_c15.c against simple/*.c, delta/*.c)", glog)
+    # P
+    p_ok = ctx.lean_stage(["XzVerif.Props.C15"], exes=["xzm_c15"], bv_decide_ok=("XzVerif.Lemmas.BitWords",)) if g_ok else False
     okh, log, exe = vlib.harness_build("c15", HARNESS, tu=TU)
     if not okh:
         ctx.obligation_broken("stage B: C15 harness does not compile against the tree (simple/*.c, delta/*.c are #included)", log)
@@ -655,13 +673,13 @@ def run(ctx):
         mexe = None
     # K
     both, conly = gen_cases(ctx)
-    c_out, fail = run_all(exe, both + conly)
+    c_out, fail = run_all(exe, both + conly, timeout=240 if ctx.quick() else 900)
     if fail is not None:
         ctx.violation("harness-abort", {"kind": "implementation aborted (sanitizer/assert/crash/hang)", "op": fail[0], "stderr": fail[1]}, True)
         return "proof"
     m_out = None
     if mexe:
-        m_out, mfail = run_all(mexe, both)
+        m_out, mfail = run_all(mexe, both, timeout=240 if ctx.quick() else 900)
         if mfail is not None:
             ctx.obligation_broken("model driver xzm_c15 failed on an op", json.dumps({"op": mfail[0][:400], "stderr": mfail[1][-500:]}))
             m_out = None
@@ -678,8 +696,14 @@ def run(ctx):
                 continue
             exp = third_opinion(sysl, ln)
             impl_stream = impl_whole(ln, c_out[i])
+            model_stream = impl_whole(ln, m_out[i])
             replay = {"kind": "implementation output differs from the reference model", "op": ln, "impl": c_out[i], "model": m_out[i],
                       "how_to_replay": "echo '<op>' | .cache/harness-asan/c15   and   | lean/.lake/build/bin/xzm_c15"}
+            if impl_stream is not None and impl_stream == model_stream:
+                # same bytes, different per-call return codes / consumed / produced counts: the buffering differs from the model
+                ctx.obligation_broken("correspondence C15: simple_coder per-call behaviour differs from the model (stream bytes agree)",
+                                      json.dumps(replay)[:2500])
+                continue
             if exp is not None and impl_stream is not None:
                 third_used += 1
                 replay["system_liblzma"] = exp.hex()
